@@ -74,7 +74,7 @@ date_field!(field32c, Field32C, b"", b"USD100,00", |f: &Field32C| f.value_date);
 //# bound: all 10^6 six-digit dates followed by the constant "USD100,00", unwind 20
 date_field!(field32d, Field32D, b"", b"USD100,00", |f: &Field32D| f.value_date);
 
-//# harness: name=c11_field60f prop=C11 tier=thorough unwind=20 timeout=1800 stubs=fmt,f64
+//# harness: name=c11_field60f prop=C11 tier=manual unwind=20 timeout=1800 stubs=fmt,f64
 //# functions: fields::field60::Field60F::parse
 //# bound: "C" + all 10^6 six-digit dates + "USD100,00", unwind 20
 date_field!(field60f, Field60F, b"C", b"USD100,00", |f: &Field60F| f.value_date);
@@ -84,7 +84,7 @@ date_field!(field60f, Field60F, b"C", b"USD100,00", |f: &Field60F| f.value_date)
 //# bound: "C" + all 10^6 six-digit dates + "USD100,00", unwind 20
 date_field!(field60m, Field60M, b"C", b"USD100,00", |f: &Field60M| f.value_date);
 
-//# harness: name=c11_field62f prop=C11 tier=thorough unwind=20 timeout=1200 stubs=fmt,f64
+//# harness: name=c11_field62f prop=C11 tier=manual unwind=20 timeout=1200 stubs=fmt,f64
 //# functions: fields::field62::Field62F::parse
 //# bound: "C" + all 10^6 six-digit dates + "USD100,00", unwind 20
 date_field!(field62f, Field62F, b"C", b"USD100,00", |f: &Field62F| f.value_date);
@@ -104,7 +104,7 @@ date_field!(field64, Field64, b"C", b"USD100,00", |f: &Field64| f.value_date);
 //# bound: "C" + all 10^6 six-digit dates + "USD100,00", unwind 20
 date_field!(field65, Field65, b"C", b"USD100,00", |f: &Field65| f.value_date);
 
-//# harness: name=c11_field61 prop=C11 tier=thorough unwind=40 timeout=1800 stubs=fmt,f64
+//# harness: name=c11_field61 prop=C11 tier=manual unwind=40 timeout=1800 stubs=fmt,f64
 //# functions: fields::field61::Field61::parse
 //# bound: all 10^6 six-digit value dates + "C100,00NTRFREF123", unwind 40
 date_field!(field61, Field61, b"", b"C100,00NTRFREF123", |f: &Field61| f.value_date);
@@ -114,12 +114,12 @@ date_field!(field61, Field61, b"", b"C100,00NTRFREF123", |f: &Field61| f.value_d
 //# bound: all 10^6 six-digit dates + "1200+0100", unwind 20
 date_field!(field13d, Field13D, b"", b"1200+0100", |f: &Field13D| f.date);
 
-//# harness: name=c11_field11s prop=C11 tier=thorough unwind=20 timeout=1800 stubs=fmt
+//# harness: name=c11_field11s prop=C11 tier=manual unwind=20 timeout=1800 stubs=fmt
 //# functions: fields::field11::Field11S::parse
 //# bound: "103" + all 10^6 six-digit dates, unwind 20
 date_field!(field11s, Field11S, b"103", b"", |f: &Field11S| f.date);
 
-//# harness: name=c11_field11r prop=C11 tier=thorough unwind=20 timeout=1200 stubs=fmt
+//# harness: name=c11_field11r prop=C11 tier=manual unwind=20 timeout=1200 stubs=fmt
 //# functions: fields::field11::Field11R::parse
 //# bound: "103" + all 10^6 six-digit dates, unwind 20
 date_field!(field11r, Field11R, b"103", b"", |f: &Field11R| f.date);
